@@ -55,7 +55,11 @@ func c17Oracle(x *dialogx) func(c *dcase, r *drun, base *drun) {
 			arts[n] = d
 		}
 		x.res.Count("artefacts_scanned", int64(len(arts)))
-		for name, data := range arts {
+		// every artefact is judged on its own, in a fixed order (one case may
+		// leak into several files; each file kind has its own signature)
+		leaked := false
+		for _, name := range sortedKeys(arts) {
+			data := arts[name]
 			for _, f := range forms {
 				if i := strings.Index(data, f.text); i >= 0 {
 					lo, hi := i-120, i+len(f.text)+60
@@ -81,9 +85,13 @@ func c17Oracle(x *dialogx) func(c *dcase, r *drun, base *drun) {
 					x.violation(c, r, "no-secret-in-artefact",
 						fmt.Sprintf("leak:%s:%s:%s:%s", c.sc.devType, strings.SplitN(f.name, ":", 2)[0], kindOfFile, how),
 						fmt.Sprintf("%s found in %s: ...%s...", f.name, name, data[lo:hi]))
-					return
+					leaked = true
+					break
 				}
 			}
+		}
+		if leaked {
+			return
 		}
 		x.res.Outcome(fmt.Sprintf("%s clean exit=%d", c.sc.devType, r.exit))
 	}
